@@ -324,9 +324,10 @@ def matlab_plan(node, records, env=None):
                 idx_ok = idx_ok and pos == 0 and has_null
                 continue
             pos += 1
-            if f[0] != "name" or f[1].lstrip("@") not in known:
-                raise Unparsed("matlab union factory %r not found" % (f,))
-            idx_ok = idx_ok and known[f[1].lstrip("@")] == pos
+            if f[0] != "name":
+                raise Unparsed("matlab union factory %r" % (f,))
+            # a factory that no generated union class defines is a deviation, not a parsing problem
+            idx_ok = idx_ok and known.get(f[1].lstrip("@")) == pos
         return ("union", has_null, tuple(p for p in plans if p != ("none",)), ("meta", None, (), idx_ok))
     if base == "Vector":
         return ("vec", matlab_plan(args[0], records, env))
